@@ -49,37 +49,47 @@ def _feed(h, o, depth):
 
 
 def globals_digest():
-    """Digest of everything mutable that lives in the dsw modules: module globals (names and values), function
-    defaults / attributes, class attributes.  A cache, a counter or a memo table anywhere in there changes it."""
+    """Digest of everything mutable that lives in the dsw modules: module globals (names and values), defaults /
+    attributes / closures of the dsw functions, class attributes.  A cache, a counter or a memo table anywhere in there
+    changes it.  Objects imported from other packages (numpy, networkx functions) are identified by name only."""
     h = hashlib.sha256()
     for m in dsw_modules():
-        for name in sorted(vars(m)):
+        d = vars(m)
+        for name in sorted(d):
             if name.startswith("__") and name.endswith("__"):
                 continue
-            v = vars(m)[name]
+            v = d[name]
             h.update(name.encode())
             if isinstance(v, types.FunctionType):
+                if not (v.__module__ or "").startswith("dsw"):
+                    h.update(b"ext-fn")
+                    continue
                 _feed(h, v.__defaults__, 0)
                 _feed(h, v.__kwdefaults__, 0)
-                _feed(h, dict(v.__dict__), 0)
-                if v.__closure__:
+                if v.__dict__:
+                    _feed(h, {k: x for k, x in v.__dict__.items() if k != "__wrapped__"}, 0)
+                if v.__closure__ and not hasattr(v, "__wrapped__"):
                     for cell in v.__closure__:
                         try:
                             _feed(h, cell.cell_contents, 0)
                         except ValueError:
                             pass
             elif isinstance(v, type):
+                if not (v.__module__ or "").startswith("dsw"):
+                    h.update(b"ext-type")
+                    continue
                 for an in sorted(vars(v)):
                     av = vars(v)[an]
-                    if an.startswith("__") and an.endswith("__") and an not in ("__slots__",):
+                    if an.startswith("__") and an.endswith("__"):
                         continue
                     h.update(an.encode())
                     if isinstance(av, types.FunctionType):
                         _feed(h, av.__defaults__, 0)
-                        _feed(h, dict(av.__dict__), 0)
+                        if av.__dict__:
+                            _feed(h, dict(av.__dict__), 0)
                     else:
                         _feed(h, av, 0)
-            elif isinstance(v, types.ModuleType) or isinstance(v, types.BuiltinFunctionType):
+            elif isinstance(v, (types.ModuleType, types.BuiltinFunctionType)) or callable(v):
                 h.update(b"ext")
             else:
                 _feed(h, v, 0)
